@@ -223,6 +223,14 @@ def cases(tier, seed):
     for i in range(24 if tier == "quick" else 400):
         yield {"label": "concurrent-first-use", "kind": "concurrent", "seed": seed * 7919 + i, "threads": [2, 4, 8][i % 3], "p": [0.0, 0.1, 0.3, 0.6][i % 4],
                "n": [6, 40, 120][(i // 3) % 3]}
+    # long scalars and wide containers: buffer / chunk boundaries of an encoder (a blob just over 64 KiB, a string just over 1 MiB)
+    for i, size in enumerate([65535, 65536, 65537, 98304, 131073, 200001, 1048577] if tier == "quick" else
+                             [4095, 4097, 8193, 16385, 32769, 49153, 65535, 65536, 65537, 65538, 65539, 98304, 98305, 131071, 131073, 196609, 200001, 262145,
+                              524289, 1048575, 1048577, 3 * 1048576 + 1]):
+        for typ in ("bytes", "str", "nonascii", "list", "intdigits"):
+            if typ == "list" and size > (140000 if tier == "quick" else 1100000):
+                continue  # the oracle's own canonical form of a very wide list is the cost
+            yield {"label": "sizes", "kind": "sizes", "seed": seed * 131 + i, "size": size, "typ": typ}
     for depth in ([50, 150, 240, 300, 450, 600] if tier == "quick" else [50, 100, 150, 200, 220, 240, 260, 280, 300, 330, 360, 400, 450, 500, 600]):
         for shape in ("list", "tuple", "dict", "mixed", "list-over-tuple", "list-over-intkey-dict", "list-over-dict"):
             yield {"label": "deep", "seed": seed * 31 + depth, "kind": "deep", "depth": depth, "shape": shape}
@@ -240,7 +248,29 @@ def run_case(case):
     counts = {"roundtrip": 0, "rejected": 0, "violation": 0, "skipped": 0, "rejected-recursion": 0}
     classes = set()
     samples = []
-    if case["kind"] == "deep":
+    if case["kind"] == "sizes":
+        n = case["size"]
+        base = {"bytes": lambda: bytes(rng.randrange(256) for _ in range(257)) * (n // 257 + 1),
+                "str": lambda: ("abcdefghijklmnopqrstuvwxyz0123456789" * (n // 36 + 1)),
+                "nonascii": lambda: ("h\u00e9\u6f22\U0001F600z" * (n // 5 + 1)),
+                "list": lambda: list(range(n)),
+                "intdigits": lambda: None}[case["typ"]]()
+        big = (base[:n] if base is not None else int("7" * min(n, 4000)) * (1 if n % 2 else -1))
+        from aws_durable_execution_sdk_python.concurrency.models import BatchItem, BatchItemStatus, BatchResult, CompletionReason
+
+        wrappers = [("root", lambda b: b), ("in-list", lambda b: [1, b, "x"]), ("in-dict", lambda b: {"k": b, "n": 1}), ("in-tuple", lambda b: (b, 2)),
+                    ("in-batch-item", lambda b: BatchResult([BatchItem(0, BatchItemStatus.SUCCEEDED, result=b)], CompletionReason.ALL_COMPLETED))]
+        if case["typ"] == "list":
+            wrappers = wrappers[:2] + [("tuple-of", lambda b: tuple(b))]
+        for wname, w in wrappers:
+            x, how = check_value(w(big), "long-scalar")
+            counts[how] += 1
+            classes.add("sizes|%s|%s|%d|%s" % (case["typ"], wname, n, how))
+            if x:
+                x["case"] = case
+                viol.append(x)
+        samples.append("%s of %d units in %d positions" % (case["typ"], n, len(wrappers)))
+    elif case["kind"] == "deep":
         depth = case["depth"]
         shape = case["shape"]
         v = rng.choice([1, "x", None, Decimal("1")])
